@@ -180,9 +180,18 @@ def run_paths(ctx, rng):
             (main, "make_wav 'tape.wav', 'MYNAME'\n", [], {os.path.join(os.path.dirname(main), "tape.wav"): ("bk_wav", "MYNAME")}),
             (main, "make_turbo_wav 't2.WAV', '0123456789ABCDEF'\n", [], {os.path.join(os.path.dirname(main), "t2.WAV"): ("bk_turbo_wav", "0123456789ABCDEF")}),
             (main, "make_bin\nmake_wav 'w.wav'\n", ["-o", "also.bin"], {stem + ".bin": ("bin", None), os.path.join(os.path.dirname(main), "w.wav"): ("bk_wav", "w"), "also.bin": ("bin", None)}),
+            # several directives of one format: every file carries its own name
+            (main, "make_wav 'game.wav', 'GAME'\nmake_wav 'backup.wav', 'BACKUP'\n", [],
+             {os.path.join(os.path.dirname(main), "game.wav"): ("bk_wav", "GAME"), os.path.join(os.path.dirname(main), "backup.wav"): ("bk_wav", "BACKUP")}),
+            (main, "make_turbo_wav 'a1.wav'\nmake_turbo_wav 'b2.wav', 'SECOND'\nmake_wav 'c3.wav'\n", [],
+             {os.path.join(os.path.dirname(main), "a1.wav"): ("bk_turbo_wav", "a1"), os.path.join(os.path.dirname(main), "b2.wav"): ("bk_turbo_wav", "SECOND"),
+              os.path.join(os.path.dirname(main), "c3.wav"): ("bk_wav", "c3")}),
+            (main, "make_bin 'one.bin'\nmake_bin 'two.bin'\nmake_raw 'three'\n", [],
+             {os.path.join(os.path.dirname(main), "one.bin"): ("bin", None), os.path.join(os.path.dirname(main), "two.bin"): ("bin", None),
+              os.path.join(os.path.dirname(main), "three"): ("raw", None)}),
         ]
     if not ctx.thorough:
-        cases = [c for i, c in enumerate(cases) if i < 16 or rng.random() < 0.45]
+        cases = [c for i, c in enumerate(cases) if i < 19 or rng.random() < 0.45]
     for main, extra, argv, expect in cases:
         d = impl.scratch_dir()
         try:
